@@ -359,11 +359,22 @@ def clamp_lo(i, n):
         return i if ci >= 0 else zmax(n + i, z3.IntVal(0))
     if is_nonneg(i):
         return i
+    si = z3.simplify(i)
+    if is_nonneg(si):  # e.g. (k + 1) - 1
+        return si
     return z3.If(i < 0, zmax(i + n, z3.IntVal(0)), i)
 
 
 def seq_slice(sv, lo, hi):
     """python s[lo:hi], step 1; lo/hi are z3 ints or None"""
+    if hi is None and lo is not None and z3.is_app(sv.z) and sv.z.decl().kind() == z3.Z3_OP_SEQ_EXTRACT:
+        # (s[off:off+L])[lo:]  ==  s[off+lo : off+L]   for off, lo >= 0 (seq.extract semantics: empty when the
+        # offset is out of range or the length is not positive -- both sides agree in every such case).
+        # z3's sequence solver is slow on extract-of-extract; this keeps such facts syntactic.
+        base, off, ln = sv.z.arg(0), sv.z.arg(1), sv.z.arg(2)
+        lo_s = z3.simplify(lo)
+        if is_nonneg(off) and is_nonneg(lo_s):
+            return SV(z3.SubSeq(base, z3.simplify(off + lo_s), z3.simplify(ln - lo_s)), sv.ty)
     n = seq_len(sv)
     lo_z = z3.IntVal(0) if lo is None else clamp_lo(lo, n)
     if hi is None:
